@@ -179,6 +179,19 @@ def strip_generics(path):
             out.append(path[i:j + 1])
             i = j + 1
             continue
+        if c == "<" and path.startswith("<impl ", i):
+            # `module::<impl some::Type>::method` -- an inherent impl written in another module: keep the type name
+            j = match_bracket(path, i)
+            inner = path[i + len("<impl "):j]
+            if " for " in inner:
+                inner = inner.split(" for ", 1)[1]
+            tyname = strip_generics(inner.strip()).split("::")[-1] if re.match(r"^[A-Za-z_]", inner.strip()) else ""
+            if re.fullmatch(r"[A-Z][A-Za-z0-9_]*", tyname):
+                out.append(tyname)
+            elif out[-2:] == [":", ":"]:
+                out = out[:-2]       # primitive / slice impls: core::str::<impl str>::len -> core::str::len
+            i = j + 1
+            continue
         if c == "<" and i > 0:
             j = match_bracket(path, i)
             # drop the group and a preceding '::'
